@@ -63,7 +63,7 @@ Section WorkR.
       pose proof (run_inv_p Rops c evs) as Hp. fold m in Hp.
       destruct (mstep_unfold Rops c m e) as [_ [_ [Hst _]]]. rewrite Hst.
       destruct (inv_kc_run Rops c evs Hc Hn HN) as [Kf [_ [_ Kk]]]. fold m in Kf, Kk.
-      set (t := ev_it m e). set (rel := ev_it m e - ev_itr m e).
+      set (t := ev_it m e). set (rel := t - ev_itr m e).
       assert (Hs0f : s_first (ev_s0 Rops c m e) = c_it0 c) by (rewrite ev_s0_first; assumption).
       assert (Hs0c : s_centers (ev_s0 Rops c m e) = c_centers0 c).
       { destruct e; cbn [ev_s0]; try exact IC. unfold restore. rewrite Hcc. reflexivity. }
@@ -71,25 +71,26 @@ Section WorkR.
       assert (Hs0k : s_k (ev_s0 Rops c m e) = s_k (m_st m)) by (apply ev_s0_k; assumption).
       rewrite rstep_W, rstep_centers, centers_update_off by exact Hcc.
       split; [|exact Hs0c].
-      unfold upd. rewrite centers_update_off by exact Hcc. fold t rel.
+      unfold upd. rewrite centers_update_off by exact Hcc. fold t. fold rel.
       destruct (k_update_cont_spec c (ev_s0 Rops c m e) t rel (ev_cont e) (ev_xs e) Hc Hn Hs0f HN) as [S1 [S2 [S3 S4]]].
       set (s2 := fst (k_update Rops c (ev_s0 Rops c m e) t rel (ev_cont e) (ev_xs e))) in *.
       unfold work_centers. rewrite Hcc. cbn [andb].
       unfold work_k. rewrite Hc, Hacc. cbn [andb].
       assert (Hdk : dUdk_sum Rops c s2 (ev_xs e) = dUdk_sum Rops c (init_state Rops c) (ev_xs e)).
       { apply dUdk_sum_ext. rewrite S3, Hs0c. reflexivity. }
-      destruct (evs) as [|e0 r] eqn:Eevs.
+      assert (Hcase : evs = [] \/ evs <> []) by (destruct evs; [left; reflexivity | right; discriminate]).
+      destruct Hcase as [Hnil | Hnemp].
       + (* first event: step_relative = 0, nothing is accumulated *)
+        assert (Hm : m = init_m Rops c) by (unfold m; rewrite Hnil; reflexivity).
         assert (Hrel : rel = 0).
-        { unfold rel, m, run. cbn [fold_left]. destruct e; cbn [ev_it ev_itr init_m m_fresh m_it m_itr]; lia. }
-        rewrite Hrel. cbn [Z.ltb Z.compare]. rewrite S4, Hs0W, IW. unfold wk_spec. cbn. reflexivity.
-      + rewrite <- Eevs in *. assert (Hnemp : evs <> []) by (rewrite Eevs; discriminate).
-        assert (Hnf : m_fresh m = false) by (apply run_not_fresh; exact Hnemp).
+        { unfold rel, t. rewrite Hm. destruct e; cbn [ev_it ev_itr init_m m_fresh m_it m_itr]; lia. }
+        rewrite Hrel. cbn [Z.ltb Z.compare]. rewrite S4, Hs0W, IW, Hnil. unfold wk_spec. cbn. reflexivity.
+      + assert (Hnf : m_fresh m = false) by (apply run_not_fresh; exact Hnemp).
         specialize (Kk Hnf).
-        unfold wk_spec. rewrite steps_of_snoc by exact Hnemp. fold m. rewrite map_app, fold_left_app.
+        unfold wk_spec. rewrite (steps_of_snoc Rops) by exact Hnemp. fold m. rewrite map_app, fold_left_app.
         fold (wk_spec c evs). rewrite <- IW.
         destruct (is_new m e) eqn:Enew.
-        * destruct (ev_new Rops c m e Hp Enew) as [Ht [_ [Hrel [Hs0 _]]]]. fold t in Ht. fold rel in Hrel.
+        * destruct (ev_new Rops c m e Hp Enew) as [Ht [_ [Hrel [Hs0 _]]]]. fold t in Ht. fold t in Hrel. fold rel in Hrel.
           rewrite Hrel. cbn [set_W s_W]. rewrite S4, Hs0W, S2, Hdk, Hs0k, Kk.
           destruct e as [xs| |]; cbn [is_new] in Enew; try discriminate.
           cbn [new_step map fold_left ev_xs]. unfold wk_term. cbn [fst snd]. rops.
@@ -114,22 +115,22 @@ Section WorkR.
   (* ================================================================ moving centres *)
   Definition var_ok (v : @var R) : Prop := v_periodic v = true -> (0 < v_period v)%R.
 
-  Lemma pdiff_p_shift P d (n : Z) : (0 < P)%R -> pdiff_p Rops P (d + IZR n * P) = pdiff_p Rops P d.
+  Lemma pdiff_p_shift (P d : R) (n : Z) : (0 < P)%R -> pdiff_p Rops P (d + IZR n * P)%R = pdiff_p Rops P d.
   Proof.
     intros HP. unfold pdiff_p, pshift, half, nhalf. rops.
     replace ((d + IZR n * P) / P + 1 / 2)%R with (d / P + 1 / 2 + IZR n)%R by (field; lra).
     rewrite Zfloor_add_IZR, plus_IZR. ring.
   Qed.
 
-  Lemma pdiff_wrap (v : @var R) a b : var_ok v -> pdiff Rops v a (wrapv Rops v b) = pdiff Rops v a b.
+  Lemma pdiff_wrap (v : @var R) (a b : R) : var_ok v -> pdiff Rops v a (wrapv Rops v b) = pdiff Rops v a b.
   Proof.
-    intros Hv. unfold pdiff, wrapv. destruct (v_periodic v) eqn:E; [|reflexivity]. specialize (Hv eq_refl). rops.
+    intros Hv. unfold pdiff, wrapv. destruct (v_periodic v) eqn:E; [|reflexivity]. specialize (Hv E). rops.
     set (n := Zfloor ((b - v_wrap_center v) / v_period v + 1 / 2)).
     replace (a - (b - IZR n * v_period v))%R with (a - b + IZR n * v_period v)%R by ring.
     apply pdiff_p_shift. exact Hv.
   Qed.
 
-  Lemma pdiff_self (v : @var R) a : pdiff Rops v a a = 0%R.
+  Lemma pdiff_self (v : @var R) (a : R) : pdiff Rops v a a = 0%R.
   Proof.
     unfold pdiff. rops. replace (a - a)%R with 0%R by ring. destruct (v_periodic v); [|reflexivity].
     unfold pdiff_p, pshift, half, nhalf. rops.
@@ -221,34 +222,35 @@ Section WorkR.
       pose proof (run_inv_p Rops c evs) as Hp. fold m in Hp.
       destruct (mstep_unfold Rops c m e) as [_ [_ [Hst _]]]. rewrite Hst.
       destruct (inv_cc_run Rops c evs Hc Hn HN) as [Kf [_ [_ Kc]]]. fold m in Kf, Kc.
-      set (t := ev_it m e). set (rel := ev_it m e - ev_itr m e).
+      set (t := ev_it m e). set (rel := t - ev_itr m e).
       assert (Hs0f : s_first (ev_s0 Rops c m e) = c_it0 c) by (rewrite ev_s0_first; assumption).
       assert (Hs0k : s_k (ev_s0 Rops c m e) = c_k0 c).
       { destruct e; cbn [ev_s0]; try exact IK. unfold restore. rewrite Hck. reflexivity. }
       assert (Hs0W : s_W (ev_s0 Rops c m e) = s_W (m_st m)) by (apply ev_s0_W; assumption).
       assert (Hs0c : s_centers (ev_s0 Rops c m e) = s_centers (m_st m)) by (apply ev_s0_centers; assumption).
-      rewrite rstep_W, rstep_k. unfold upd. rewrite k_update_off by exact Hck. cbn [fst]. fold t rel.
+      rewrite rstep_W, rstep_k. unfold upd. rewrite k_update_off by exact Hck. cbn [fst]. fold t. fold rel.
       destruct (centers_update_cont_spec c (ev_s0 Rops c m e) t rel (ev_cont e) Hc Hn Hs0f) as [S1 [S2 S3]].
       set (s2 := centers_update Rops c (ev_s0 Rops c m e) t rel (ev_cont e)) in *.
       split; [|rewrite S2; exact Hs0k].
       unfold work_k. rewrite Hck. cbn [andb]. unfold work_centers. rewrite Hc, Hacc. cbn [andb].
       assert (Hs2f : s_first s2 = c_it0 c) by (unfold s2; rewrite centers_update_first; exact Hs0f).
       rewrite Hs2f.
-      destruct (evs) as [|e0 r] eqn:Eevs.
-      + assert (Hrel : rel = 0).
-        { unfold rel, m, run. cbn [fold_left]. destruct e; cbn [ev_it ev_itr init_m m_fresh m_it m_itr]; lia. }
-        rewrite Hrel. cbn [Z.ltb Z.compare andb]. rewrite S3, Hs0W, IW. unfold wc_spec. cbn. reflexivity.
-      + rewrite <- Eevs in *. assert (Hnemp : evs <> []) by (rewrite Eevs; discriminate).
-        assert (Hnf : m_fresh m = false) by (apply run_not_fresh; exact Hnemp).
+      assert (Hcase : evs = [] \/ evs <> []) by (destruct evs; [left; reflexivity | right; discriminate]).
+      destruct Hcase as [Hnil | Hnemp].
+      + assert (Hm : m = init_m Rops c) by (unfold m; rewrite Hnil; reflexivity).
+        assert (Hrel : rel = 0).
+        { unfold rel, t. rewrite Hm. destruct e; cbn [ev_it ev_itr init_m m_fresh m_it m_itr]; lia. }
+        rewrite Hrel. cbn [Z.ltb Z.compare andb]. rewrite S3, Hs0W, IW, Hnil. unfold wc_spec. cbn. reflexivity.
+      + assert (Hnf : m_fresh m = false) by (apply run_not_fresh; exact Hnemp).
         specialize (Kc Hnf).
-        unfold wc_spec. rewrite steps_of_snoc by exact Hnemp. fold m. rewrite map_app, fold_left_app.
+        unfold wc_spec. rewrite (steps_of_snoc Rops) by exact Hnemp. fold m. rewrite map_app, fold_left_app.
         fold (wc_spec c evs). rewrite <- IW.
         assert (Hcen2 : s_centers s2 = closed_centers Rops c t).
         { assert (H := inv_cc_run Rops c (evs ++ [e]) Hc Hn HN). destruct H as [_ [_ [_ H]]].
           rewrite run_snoc in H. fold m in H. rewrite mstep_not_fresh in H. specialize (H eq_refl).
           destruct (mstep_unfold Rops c m e) as [Hit' [_ [Hst' _]]]. rewrite Hit', Hst', rstep_centers in H. exact H. }
         destruct (is_new m e) eqn:Enew.
-        * destruct (ev_new Rops c m e Hp Enew) as [Ht [_ [Hrel [Hs0 _]]]]. fold t in Ht. fold rel in Hrel.
+        * destruct (ev_new Rops c m e Hp Enew) as [Ht [_ [Hrel [Hs0 _]]]]. fold t in Ht. fold t in Hrel. fold rel in Hrel.
           rewrite Hrel. cbn [andb].
           destruct e as [xs| |]; cbn [is_new] in Enew; try discriminate.
           cbn [new_step map fold_left ev_xs]. unfold wc_term. cbn [fst snd]. rewrite <- Ht.
@@ -259,10 +261,14 @@ Section WorkR.
              apply Z.leb_le in E.
              unfold closed_centers. rewrite (incr_closed (c_vars c) _ _ Hvars).
              fold (dotw). change (fun (w : R) (fd : R * R) => nadd Rops w (nmul Rops (fst fd) (snd fd))) with dotw.
-             rewrite fold_dotw_shift. rops. f_equal. f_equal.
-             ++ f_equal. f_equal. apply terms_ext; [rewrite S2, Hs0k; reflexivity | rewrite Hcen2; reflexivity].
-             ++ unfold unwrapped, sched_lambda. rewrite Z.min_l by lia.
-                replace (t - 1) with (m_it m) by lia. reflexivity.
+             rewrite fold_dotw_shift. rops.
+             assert (A1 : terms Rops c s2 xs = terms Rops c (sched_st c t) xs).
+             { apply terms_ext; [rewrite S2, Hs0k; reflexivity | rewrite Hcen2; reflexivity]. }
+             assert (A2 : new_centers Rops c (ratio Rops (t - c_it0 c) (c_nsteps c)) = unwrapped c t).
+             { unfold unwrapped, sched_lambda. rewrite Z.min_l by lia. reflexivity. }
+             assert (A3 : new_centers Rops c (sched_lambda Rops c (m_it m)) = unwrapped c (t - 1)).
+             { unfold unwrapped. replace (t - 1) with (m_it m) by lia. reflexivity. }
+             cbn [ev_xs] in A1. rewrite A1, A2, A3. reflexivity.
           -- rewrite S3, Hs0W. rops. ring.
         * destruct (ev_again Rops c m e Hp Enew) as [Ht _]. fold t in Ht.
           assert (Hns : new_step (m_it m) e = []).
@@ -286,11 +292,11 @@ Section WorkR.
   Proof. intros. apply work_centers_sum_inv; assumption. Qed.
 
   (* when consecutive scheduled centres are less than half a period apart the closest-image increment is the plain difference *)
-  Lemma pdiff_small (v : @var R) a b : var_ok v ->
+  Lemma pdiff_small (v : @var R) (a b : R) : var_ok v ->
     (v_periodic v = true -> - v_period v / 2 <= a - b < v_period v / 2)%R -> pdiff Rops v a b = (a - b)%R.
   Proof.
     intros Hv Hs. unfold pdiff. rops. destruct (v_periodic v) eqn:E; [|reflexivity].
-    specialize (Hv eq_refl). specialize (Hs eq_refl). unfold pdiff_p, pshift, half, nhalf. rops.
+    specialize (Hv E). specialize (Hs eq_refl). unfold pdiff_p, pshift, half, nhalf. rops.
     assert (H : Zfloor ((a - b) / v_period v + 1 / 2) = 0).
     { apply Zfloor_spec. simpl.
       assert (H1 : (-(1/2) <= (a - b) / v_period v)%R).
